@@ -136,14 +136,14 @@ var Ops = []Op{
 	repl(kHead, "headline-indented-space", func(l, _ string) string { return " " + l }),
 	repl(kHead, "headline-indented-4", func(l, _ string) string { return "    " + l }),
 	repl(kHead, "headline-indented-tab", func(l, _ string) string { return "\t" + l }),
-	repl(kHead, "headline-indented-nbsp", func(l, _ string) string { return " " + l }),
+	repl(kHead, "headline-indented-nbsp", func(l, _ string) string { return "\u00a0" + l }),
 	// --- record summary
 	repl(kSum, "summary-leading-space", func(l, _ string) string { return " " + l }),
 	repl(kSum, "summary-leading-tab", func(l, _ string) string { return "\t" + l }),
-	repl(kSum, "summary-leading-nbsp", func(l, _ string) string { return " " + l }),
-	repl(kSum, "summary-leading-ideographic-space", func(l, _ string) string { return "　" + l }),
-	repl(kSum, "summary-leading-en-quad", func(l, _ string) string { return " " + l }),
-	repl(kSum, "summary-leading-zwsp", func(l, _ string) string { return "​" + l }), // U+200B is Cf, not Zs: rule-preserving
+	repl(kSum, "summary-leading-nbsp", func(l, _ string) string { return "\u00a0" + l }),
+	repl(kSum, "summary-leading-ideographic-space", func(l, _ string) string { return "\u3000" + l }),
+	repl(kSum, "summary-leading-en-quad", func(l, _ string) string { return "\u2000" + l }),
+	repl(kSum, "summary-leading-zwsp", func(l, _ string) string { return "\u200b" + l }), // U+200B is Cf, not Zs: rule-preserving
 	repl(kSum, "summary-5-spaces", func(l, _ string) string { return "     " + l }),
 	// --- indentation of entries / continuation lines
 	repl(kInd, "indent-1-space", func(l, u string) string { return " " + l[len(u):] }),
@@ -155,13 +155,13 @@ var Ops = []Op{
 	repl(kInd, "indent-other-unit-4", func(l, u string) string { return "    " + l[len(u):] }),
 	repl(kInd, "indent-other-unit-3", func(l, u string) string { return "   " + l[len(u):] }),
 	repl(kInd, "indent-other-unit-2", func(l, u string) string { return "  " + l[len(u):] }),
-	repl(kInd, "indent-nbsp", func(l, u string) string { return "    " + l[len(u):] }),
+	repl(kInd, "indent-nbsp", func(l, u string) string { return "\u00a0\u00a0\u00a0\u00a0" + l[len(u):] }),
 	repl(kInd, "indent-none", func(l, u string) string { return strings.TrimLeft(l, " \t") }),
 	repl(kEnt, "indent-doubled", func(l, u string) string { return u + l }),
 	repl(kCont, "continuation-deindent", func(l, u string) string { return l[len(u):] }),
 	repl(kCont, "continuation-triple", func(l, u string) string { return u + l }), // rule-preserving (text may start with blanks)
-	repl(kCont, "continuation-nbsp-only", func(l, u string) string { return u + u + " " }),
-	repl(kCont, "continuation-ideographic-only", func(l, u string) string { return u + u + "　\t" }),
+	repl(kCont, "continuation-nbsp-only", func(l, u string) string { return u + u + "\u00a0" }),
+	repl(kCont, "continuation-ideographic-only", func(l, u string) string { return u + u + "\u3000\t" }),
 	// --- entry values
 	repl(kEnt, "value-hour-25", replaceValue("25:00 - 26:00")),
 	repl(kEnt, "value-minute-60", replaceValue("8:60 - 9:00")),
@@ -199,7 +199,7 @@ var Ops = []Op{
 	// --- structure
 	{Name: "blank-line-before", Kinds: kAny, Apply: func(l, _ string) ([]string, bool) { return []string{"", l}, true }},
 	{Name: "spaces-line-before", Kinds: kAny, Apply: func(l, _ string) ([]string, bool) { return []string{"  ", l}, true }},
-	{Name: "nbsp-line-before", Kinds: kAny, Apply: func(l, _ string) ([]string, bool) { return []string{" ", l}, true }},
+	{Name: "nbsp-line-before", Kinds: kAny, Apply: func(l, _ string) ([]string, bool) { return []string{"\u00a0", l}, true }},
 	{Name: "stray-text-before", Kinds: kHead, Apply: func(l, _ string) ([]string, bool) { return []string{"stray text", "", l}, true }},
 	{Name: "stray-text-after-blank", Kinds: kAll, Apply: func(l, _ string) ([]string, bool) { return []string{l, "", "not a record"}, true }},
 	{Name: "delete-line", Kinds: kAny, Apply: func(l, _ string) ([]string, bool) { return []string{}, true }},
